@@ -1154,7 +1154,7 @@ class GenericPlainRegistry(Generic[QuantityT, UnitT], metaclass=RegistryMeta):
                             self._suffixes[suffix],
                         )
                 else:
-                    for real_name in self._units_casei.get(name.lower(), ()):
+                    for real_name in sorted(self._units_casei.get(name.lower(), ())):
                         yield (
                             self._prefixes[prefix].name,
                             self._units[real_name].name,
